@@ -663,6 +663,11 @@ def l2_stream(ex, cls):
             if op in L2_CALLS:
                 if e.get('l', 1) not in (1, -1):
                     ok = False
+                if op == 'CVerify' and e['g'] not in owning:
+                    op = 'Verify'          # a composite guard without the lock verifies like an optimistic guard
+                if op in ('Upgrade', 'Downgrade') and e['g'] not in owning:
+                    active[t] = None       # conversion of a guard that owns nothing: no operation at all
+                    continue
                 active[t] = op
                 out.append({'e': 'call', 't': t, 'op': op})
             elif op == 'Destroy':
@@ -677,7 +682,10 @@ def l2_stream(ex, cls):
             op = e['op']
             if op in ('Default', 'Bool', 'XVersion'):
                 continue
-            if op in ('SetVersion', 'Sync', 'MoveCtor', 'MoveAssign'):
+            if op == 'SetVersion':
+                out.append({'e': 'setv', 't': t, 'vh': e['vh'], 'vl': e['vl']})
+                continue
+            if op in ('Sync', 'MoveCtor', 'MoveAssign'):
                 ok = False
                 continue
             if op in ('LockS', 'LockSIX', 'LockX', 'PrepareRead') and e.get('b') == 1:
@@ -715,6 +723,8 @@ def l2_stream(ex, cls):
             if cls == 'mcs':
                 ev['bp'] = decode_word(cls, e['b'], addr2node)['p']
             out.append(ev)
+        elif k == 'tend':
+            out.append({'e': 'tend', 't': t})
         elif k == 'texit':
             out.append({'e': 'texit', 't': t})
     return out, ok
@@ -722,7 +732,52 @@ def l2_stream(ex, cls):
 
 L2_FIELDS = {'pess': ('t', 'op', 'k', 'mo', 'x', 'six', 's'),
              'opt': ('t', 'op', 'k', 'mo', 'x', 'six', 's', 'vh', 'vl', 'b', 'r'),
-             'mcs': ('t', 'op', 'k', 'mo', 'loc', 'x', 'six', 's', 'p', 'n', 'bp')}
+             'mcs': ('t', 'op', 'k', 'mo', 'loc', 'x', 'six', 's', 'p', 'n', 'fr')}
+
+
+def l2_stream_mcs(ex):
+    """MCS: attach the node allocated by a call (n) and the node freed right after an operation or at thread
+    exit (fr) to the events the specification's actions correspond to"""
+    st, ok = l2_stream(ex, 'mcs')
+    out = []
+    last = {}       # thread -> index in out of its last call/op event
+    body_done = set()
+    pending_free = {}
+    for e in st:
+        k = e['e']
+        t = e.get('t', 0)
+        if k == 'alloc':
+            i = last.get(t)
+            if i is None or out[i]['e'] != 'call':
+                ok = False
+            else:
+                out[i]['n'] = e['n']
+        elif k == 'free':
+            i = last.get(t)
+            if t in body_done or i is None:
+                pending_free[t] = e['n']
+            elif out[i]['e'] == 'op' and out[i].get('fr', 0) == 0:
+                out[i]['fr'] = e['n']
+            else:
+                ok = False
+        elif k == 'tend':
+            body_done.add(t)
+        elif k == 'texit':
+            out.append({'e': 'texit', 't': t, 'fr': pending_free.pop(t, 0)})
+        else:
+            if k == 'call':
+                e = dict(e)
+                e['n'] = 0
+            elif k == 'op':
+                e = dict(e)
+                e['fr'] = 0
+            out.append(e)
+            if k in ('call', 'op'):
+                last[t] = len(out) - 1
+            if k == 'ret':
+                pass
+    # thread bodies end after their last ret; frees after that belong to the exit
+    return out, ok
 
 
 def norm_l2(e, cls):
